@@ -90,7 +90,7 @@ impl ReaderState {
     }
 //@end
 
-//@extract state::ReaderState::emit_bang | src/reader/state.rs :: impl ReaderState :: fn emit_bang | serves=C01,C03,C08,C16
+//@extract state::ReaderState::emit_bang | src/reader/state.rs :: impl ReaderState :: fn emit_bang | serves=C01,C03,C08,C16,C17
 //@rewrite buf[8..].iter().position(|&b| ==> shim::position(&buf[8..], |b: u8|
  #[verifier::loop_isolation(false)]
  pub(crate) fn emit_bang<'b>(&mut self, bang_type: BangType, buf: &'b [u8]) -> (r: Result<Event<'b>>)
@@ -221,7 +221,7 @@ impl ReaderState {
     }
 //@end
 
-//@extract state::ReaderState::emit_end | src/reader/state.rs :: impl ReaderState :: fn emit_end | serves=C01,C03,C04,C08,C16
+//@extract state::ReaderState::emit_end | src/reader/state.rs :: impl ReaderState :: fn emit_end | serves=C01,C03,C04,C08,C16,C17
 //@rewrite content.iter().rposition(|&b| ==> shim::rposition(content, |b: u8|
  pub(crate) fn emit_end<'b>(&mut self, buf: &'b [u8]) -> (r: Result<Event<'b>>)
         requires
@@ -297,7 +297,7 @@ impl ReaderState {
     }
 //@end
 
-//@extract state::ReaderState::emit_question_mark | src/reader/state.rs :: impl ReaderState :: fn emit_question_mark | serves=C01,C03,C08
+//@extract state::ReaderState::emit_question_mark | src/reader/state.rs :: impl ReaderState :: fn emit_question_mark | serves=C01,C03,C08,C17
  pub(crate) fn emit_question_mark<'b>(&mut self, buf: &'b [u8]) -> (r: Result<Event<'b>>)
         requires
             buf@.len() >= 1, buf@[0] == 0x3f,
@@ -333,7 +333,7 @@ impl ReaderState {
     }
 //@end
 
-//@extract state::ReaderState::emit_start | src/reader/state.rs :: impl ReaderState :: fn emit_start | serves=C01,C03,C04,C08,C16
+//@extract state::ReaderState::emit_start | src/reader/state.rs :: impl ReaderState :: fn emit_start | serves=C01,C03,C04,C08,C16,C17
  pub(crate) fn emit_start<'b>(&mut self, content: &'b [u8]) -> (r: Event<'b>)
         requires old(self).wf()
         ensures
@@ -370,13 +370,16 @@ impl ReaderState {
     }
 //@end
 
-//@extract state::ReaderState::close_expanded_empty | src/reader/state.rs :: impl ReaderState :: fn close_expanded_empty | serves=C03,C04,C16
+//@extract state::ReaderState::close_expanded_empty | src/reader/state.rs :: impl ReaderState :: fn close_expanded_empty | serves=C03,C04,C16,C17
  pub(crate) fn close_expanded_empty(&mut self) -> (r: BytesEnd<'static>)
         requires old(self).wf(), old(self).stack().len() > 0
         ensures
             final(self).wf(), final(self).offset == old(self).offset, final(self).config == old(self).config,
             final(self).last_error_offset == old(self).last_error_offset,
             final(self).state is InsideText,
+//@if encoding
+            final(self).encoding == old(self).encoding,
+//@endif
             r.name@ == old(self).stack().last(),
             final(self).stack() == old(self).stack().drop_last(),
  {
@@ -389,7 +392,7 @@ impl ReaderState {
     }
 //@end
 
-//@extract state::ReaderState::decoder | src/reader/state.rs :: impl ReaderState :: fn decoder | serves=C01
+//@extract state::ReaderState::decoder | src/reader/state.rs :: impl ReaderState :: fn decoder | serves=C01,C17
  pub(crate) fn decoder(&self) -> (r: Decoder)
         ensures r == self.decoder_spec()
  {
